@@ -185,6 +185,8 @@ ObsIEnq(ev) == Obs("ienq", 0, "", ev)     \* an event (token sequence) appended 
 
 \* append to the internal queue, observably
 Enq(st, ev) == [st EXCEPT !.iq = Append(@, ev), !.obs = Append(@, ObsIEnq(ev))]
+\* ... with a payload (done.state events carry the evaluated <donedata>): the payload is observed as text "n=v;n2=v2"
+EnqP(st, ev, payload) == [st EXCEPT !.iq = Append(@, ev), !.obs = Append(@, Obs("ienq", 0, payload, ev))]
 
 ErrorExecution == <<"error", "execution">>
 
@@ -286,6 +288,9 @@ LateInit(D, s, x) ==
                              IF \E i \in DOMAIN D.sdata[x] : D.sdata[x][i].n = n
                              THEN (CHOOSE e \in Range(D.sdata[x]) : e.n = n).v ELSE s.data[n]]]
   ELSE s
+\* <donedata> of the final state x, evaluated in the data of the moment the final state has been entered
+DonePayload(D, st, x) ==
+  FoldL(LAMBDA acc, pr : (IF acc = "" THEN "" ELSE acc \o ";") \o pr.n \o "=" \o ValStr(ExprVal(st.cfg, st.data, pr.e)), "", D.donedata[x])
 EnterOne(D, es, s, x) ==
   LET a0 == [s EXCEPT !.obs = Append(@, ObsEnter(x)), !.cfg = @ \cup {x}]
       a == [LateInit(D, a0, x) EXCEPT !.entered = @ \cup {x}]
@@ -295,7 +300,7 @@ EnterOne(D, es, s, x) ==
   IN IF IsFinal(D, x)
      THEN IF Parent(D, x) = Root THEN [e EXCEPT !.running = FALSE]
           ELSE LET p == Parent(D, x) g == Parent(D, p)
-                   f == Enq(e, DoneEvent(D, p))
+                   f == EnqP(e, DoneEvent(D, p), DonePayload(D, e, x))
                IN IF g # 0 /\ IsParallel(D, g) /\ \A c2 \in Range(Children(D, g)) : InFinalState(D, f.cfg, c2)
                   THEN Enq(f, DoneEvent(D, g))
                   ELSE f
